@@ -1,6 +1,6 @@
 (* C08 (structural part) property theorems: statements only; every proof is [exact lemma]. *)
 From Gv Require Import C08.Model C08.Spec C08.ProofsSpec C08.ProofsSort C08.ProofsWaves
-  C08.ProofsOrganize C08.ProofsExamples.
+  C08.ProofsOrganize C08.ProofsExamples C08.ProofsComplete.
 From Coq Require Import List Arith Bool Permutation Sorted.
 Import ListNotations.
 
@@ -75,6 +75,13 @@ Theorem c08_checkers_sound :
   plan_respects t l /\ exactly_once t l.
 Proof. exact spec_b_sound. Qed.
 Print Assumptions c08_checkers_sound.
+
+(* on a tree with unique ids the structural check is exact: it fails only if some execution
+   prepares a fetch before one of its in-tree dependencies is merged *)
+Theorem c08_structural_check_exact :
+  forall t, NoDup (tree_ids t) -> (respects_deps_b t = true <-> tree_respects t).
+Proof. exact respects_deps_b_exact. Qed.
+Print Assumptions c08_structural_check_exact.
 
 Theorem c08_plan_checks_sound :
   forall l, unique_ids_b l = true -> acyclic_b l = true -> acyclic l /\ unique_ids l.
